@@ -63,7 +63,18 @@ func hostName(r *rand.Rand) string {
 	if n < 3 {
 		return string(rune('a' + r.IntN(26)))
 	}
-	return dnsName(r.IntN, n)
+	name := dnsName(r.IntN, n)
+	if r.IntN(3) == 0 {
+		// host names are case-insensitive but travel as written: WWW.Example.COM is a legal SNI
+		b := []byte(name)
+		for i := range b {
+			if b[i] >= 'a' && b[i] <= 'z' && r.IntN(3) == 0 {
+				b[i] -= 32
+			}
+		}
+		name = string(b)
+	}
+	return name
 }
 
 func alpnList(r *rand.Rand) []string {
